@@ -188,6 +188,14 @@ func (g *gen) store(fr *frame, n *node, st *State, addr ssa.Value, val Val, pos 
 			}
 		}
 	}
+	if ia, ok := addr.(*ssa.IndexAddr); ok && g.c.strMode {
+		if sl, ok := ia.X.Type().Underlying().(*types.Slice); ok && isByte(sl.Elem()) {
+			s := g.sval(fr, ia.X)
+			pos := app("+", app("soff", s), g.sval(fr, ia.Index))
+			g.spliceBytes(n, st, app("sbase", s), pos, "1", app("str.from_code", val.(string)))
+			return
+		}
+	}
 	if ia, ok := addr.(*ssa.IndexAddr); ok && !g.c.strMode {
 		if sl, ok := ia.X.Type().Underlying().(*types.Slice); ok {
 			if b, ok := sl.Elem().Underlying().(*types.Basic); ok && b.Kind() == types.Uint8 {
@@ -337,7 +345,14 @@ func (g *gen) execInstr(fr *frame, cur *node, st *State, ins ssa.Instruction) *n
 		s := app("mkslice", id, "0", ln, cp)
 		fr.vals[x] = s
 		el := x.Type().Underlying().(*types.Slice).Elem()
-		g.zeroInitElems(cur, st, id, el)
+		if g.c.strMode && isByte(el) {
+			nb := g.c.fresh("newbytes", "Bytes")
+			cur.assume(app("=", app("str.len", nb), cp))
+			m := g.svGet(st, "$bytes", "(Array Int Bytes)")
+			g.svAssign(cur, st, "$bytes", "(Array Int Bytes)", app("store", m, id, nb))
+		} else {
+			g.zeroInitElems(cur, st, id, el)
+		}
 	case *ssa.MakeChan:
 		fr.vals[x] = app("obj", g.alloc(cur, st))
 	case *ssa.MakeMap:
@@ -521,6 +536,12 @@ func (g *gen) execBinOp(fr *frame, cur *node, st *State, x *ssa.BinOp) {
 		if srt == "Str" {
 			fr.vals[x] = app("strcat", as, bs)
 		} else if srt == "Real" {
+			fr.vals[x] = app("+", as, bs)
+		} else if g.c.strMode {
+			// string-theory mode keeps integer arithmetic linear: overflow is an obligation, not modelled
+			if in, _ := intRange(x.Type()); in != "" {
+				g.safety(cur, "overflow", "", x.Pos(), app(in, app("+", as, bs)))
+			}
 			fr.vals[x] = app("+", as, bs)
 		} else {
 			fr.vals[x] = wrapIf(w, app("+", as, bs))
@@ -1128,4 +1149,18 @@ func finalFreeVar(fv *ssa.FreeVar) bool {
 		}
 	}
 	return stores == 1
+}
+
+func isByte(t types.Type) bool {
+	b, ok := t.Underlying().(*types.Basic)
+	return ok && b.Kind() == types.Uint8
+}
+
+// spliceBytes (string-theory mode): overwrite n bytes at position pos of backing array base by src.
+func (g *gen) spliceBytes(nd *node, st *State, base, pos, n, src string) {
+	m := g.svGet(st, "$bytes", "(Array Int Bytes)")
+	old := app("select", m, base)
+	nv := app("str.++", app("str.substr", old, "0", pos), app("str.substr", src, "0", n),
+		app("str.substr", old, app("+", pos, n), app("-", app("str.len", old), app("+", pos, n))))
+	g.svAssign(nd, st, "$bytes", "(Array Int Bytes)", app("store", m, base, nv))
 }
